@@ -471,7 +471,7 @@ __CPROVER_ensures((BT_HS_ENTERED && xv_hs_ret >= 1 && !BT_VERDICT_OK(s)) ==> (BT
 __CPROVER_ensures((BT_HS_ENTERED && xv_hs_ret >= 1 && BT_VERDICT_OK(s)) ==> BT_STATE(s) == conn_state_ready)
 /* PO[C09] try_finish_tls_handshake.configured_first: whenever the handshake is entered OpenSSL holds exactly the socket's policy (CONFIGURED above; established by btls_connect/btls_accept before the state becomes handshaking) */
 __CPROVER_ensures(BT_HS_ENTERED ==> BT_CONFIGURED(s))
-/* PO[C09] try_finish_tls_handshake.one_step_own_role: only a handshaking socket enters OpenSSL: one SSL_connect (tls.client) or SSL_accept (server role) on the socket's own SSL; otherwise nothing at all happens */
+/* PO[C09,C16] try_finish_tls_handshake.one_step_own_role: only a handshaking socket enters OpenSSL: one SSL_connect (tls.client) or SSL_accept (server role) on the socket's own SSL; otherwise nothing at all happens */
 __CPROVER_ensures(__CPROVER_old(BT_STATE(s)) == conn_state_tls_handshaking \
         ? (xv_hs_calls == __CPROVER_old(xv_hs_calls) + 1 && xv_hs_ssl == BT(s)->conn.ssl && xv_hs_connect == (BT(s)->tls_client != 0)) \
         : (xv_hs_calls == __CPROVER_old(xv_hs_calls) && BT_STATE(s) == __CPROVER_old(BT_STATE(s)) && BT(s)->conn.badness_reason == __CPROVER_old(BT(s)->conn.badness_reason) && \
